@@ -6,7 +6,7 @@ for d in */; do
   d=${d%/}
   [ -f "$d/patch.diff" ] || continue
   case "$d" in *neutralised*) continue;; esac
-  p=$(python3 -c "import json;print(json.load(open('$d/meta.json'))['breaks_property'])")
+  p=$(python3 -c "import json;m=json.load(open('$d/meta.json'));print(m.get('check_with',m['breaks_property']))")
   patch=$d/patch.diff; [ -f "$d/patch.ported.diff" ] && patch=$d/patch.ported.diff
   out=$($V/seedtest.sh $V/seeded/$patch ${1:-quick} $p 2>&1)
   base=$(echo "$out" | grep -c "missing: 0")
